@@ -19,11 +19,14 @@ import (
 	"go.etcd.io/bbolt"
 	coreutils "go.sia.tech/coreutils"
 	"go.sia.tech/coreutils/chain"
+	"verif/harness/internal/hx"
 	"verif/harness/internal/out"
 	"verif/harness/internal/rng"
 )
 
-func init() { runners["C17"] = runC17 }
+func main() { hx.Main("C17", runC17) }
+
+type Ctx = hx.Ctx
 
 type kvOp struct {
 	Kind string `json:"op"` // create put del get iter has flush cancel
